@@ -10,6 +10,8 @@ import sys
 
 ROOT = os.path.dirname(os.path.dirname(os.path.abspath(__file__)))
 SEEDED = os.path.join(ROOT, "seeded")
+# signatures produced by a harness error that was found and corrected later (DESIGN.md §7.5); they are not evidence of anything
+RETRACTED_SIGS = {"C01:passthrough-differs:proxy_connection:reply:missing"}
 # delivered changes that were examined and NOT kept, with the reason (see DESIGN.md §7.7)
 REJECTED = {("C19", 8): "does not break the property as stated: one call fails on a stale connection, the next recovers"}
 
@@ -35,6 +37,9 @@ def parse_results(paths):
                 r["check"] = m.group(1)
                 continue
             m = re.match(r"\s+(C\d+:[^ ]+?): ", line)
+            if m and m.group(1) in RETRACTED_SIGS:
+                r["retracted"] = r.get("retracted", 0) + 1
+                continue
             if m and m.group(1) not in r["signatures"]:
                 r["signatures"].append(m.group(1))
             m = re.search(r"replay=\S*/(C\d+_[^/]+)\.json", line)
@@ -45,6 +50,8 @@ def parse_results(paths):
                 r["verdict"] = m.group(1)
     for rs in runs.values():
         for r in rs:
+            if r["verdict"] == "VIOLATED" and not r["signatures"] and r.get("retracted"):
+                r["verdict"] = "HELD"   # only a retracted (harness-error) signature fired
             if r["verdict"] is None and r["signatures"]:
                 r["verdict"] = "VIOLATED"   # signature lines are only printed for new violations (log was truncated)
     return runs
